@@ -18,7 +18,7 @@ BeginFree(t, k) ==
   /\ th' = [th EXCEPT ![t].pc = "user", ![t].kind = k, ![t].panicking = FALSE, ![t].panics = 0]
   /\ inj' = [inj EXCEPT ![t] = [guards |-> <<>>, verifiers |-> <<>>]]
   /\ hist' = Append(hist, [act |-> "Begin", t |-> t, kind |-> k, blocks |-> FALSE])
-  /\ UNCHANGED <<poisoned, cur, dropst, code, orig, tramp, rw, dirty, ctr, aborted, fault>>
+  /\ UNCHANGED <<poisoned, cur, dropst, code, orig, tramp, rw, dirty, ctr, aborted, fault, inflight>>
 
 BeginBlocked(t, k) ==
   /\ th[t].lives < MaxLives /\ lock # Free /\ Waiting = {}
